@@ -743,6 +743,43 @@ var scenarios = []scenario{
 			s.opRead(n, 0, 4096)
 		}
 	}},
+	{"a WRITE at the end of a file whose truncation is still pending", func(s *seqRun) {
+		// (round 13, C03m) SETATTR to 0 of a large file is acknowledged with the freeing left to the background shrinker, which is
+		// held at the start of its first transaction (a legal schedule).  The file's old blocks are still mapped.  A WRITE of
+		// 100 bytes at offset 0 — the block-aligned end of the file — must not land in the old block 0: after growing the
+		// file again the bytes behind the 100 written are zeros in every sequential order of the requests.
+		gate := make(chan struct{})
+		var gateOpen int32
+		old := fstxn.VerifObserver
+		fstxn.VerifObserver = func(kind string, op *fstxn.FsTxn, arg uint64) {
+			if kind == "begin" && curGid() != atomic.LoadUint64(&seqMainGid) && atomic.LoadInt32(&gateOpen) == 0 {
+				<-gate
+			}
+			if old != nil {
+				old(kind, op, arg)
+			}
+		}
+		defer func() {
+			if atomic.CompareAndSwapInt32(&gateOpen, 0, 1) {
+				close(gate)
+			}
+			fstxn.VerifObserver = old
+		}()
+		blk := func(n uint64) *uint64 { v := n * 4096; return &v }
+		for _, cnt := range []uint32{100, 4096 + 17} {
+			f := s.mk("create", s.root(), fmt.Sprintf("endw%d", cnt))
+			if f == nil {
+				return
+			}
+			s.opWrite(f, 0, 2*4096, 2, pat(0xaa, 2*4096))
+			s.opSetattr(f, blk(1600), timeHow{}, timeHow{})
+			s.opSetattr(f, blk(0), timeHow{}, timeHow{}) // deferred to the (held) shrinker
+			s.opWrite(f, 0, cnt, 2, pat(0x42, int(cnt)))
+			s.opSetattr(f, blk(3), timeHow{}, timeHow{})
+			s.opRead(f, 0, 3*4096)
+			s.opGetattr(f)
+		}
+	}},
 	{"unstable writes, commit, restart", func(s *seqRun) {
 		f := s.mk("create", s.root(), "u")
 		s.opWrite(f, 0, 5000, 0, s.mkData(5000))
